@@ -98,13 +98,16 @@ def c06_runs(tier):
 
 PLANS = {
     "C01": {"level": "exploration", "runs": simple("core", "asm-default")},
-    "C02": {"level": "model_checking", "runs": simple("core", "asm-default")},
+    "C02": {"level": "model_checking", "runs": simple("core", "asm-all")},
     "C03": {"level": "model_checking", "runs": simple("core", "asm-default")},
     "C04": {"level": "exploration", "runs": c04_runs, "post": c04_post},
     "C05": {"level": "exploration", "runs": simple("kernels", "default")},
     "C07": {"level": "exploration", "runs": simple("kernels", "default")},
     "C06": {"level": "model_checking", "runs": c06_runs},
-    "C08": {"level": "model_checking", "runs": simple("sched", "default")},
+    "C08": {"level": "model_checking", "runs": lambda tier: [
+        {"engine": "sched", "cfg": "default", "tag": "loom"},
+        # update_rayon itself (RayonJoin, pools of 1/2/4 threads) as a transition from every state of the C02 exploration
+        {"engine": "core", "cfg": "asm-all", "prop": "C02", "tag": "rayon-bfs", "extra": ["--exact-rayon", "1"]}]},
     "C18": {"level": "model_checking", "runs": simple("sched", "default")},
     "C09": {"level": "exploration", "runs": simple("core", "asm-default")},
     "C10": {"level": "model_checking", "runs": simple("core", "asm-default")},
